@@ -7,7 +7,10 @@ use serde_json::{json, Value};
 
 use crate::explorer::*;
 
-pub const VERIF_DIR: &str = "/verif";
+/// root of the verification tree (exported by ./check as VERIF_DIR; a background snapshot writes into itself)
+pub fn verif_dir() -> String {
+    std::env::var("VERIF_DIR").unwrap_or_else(|_| "/verif".to_string())
+}
 
 /// serde_json::Value cannot hold u128; go through text (all our amounts fit u64)
 pub fn to_val<T: Serialize>(t: &T) -> Value {
@@ -232,11 +235,11 @@ impl Run {
             let h = hash_parts(&[sig.as_bytes(), f.exploration.as_bytes()]);
             let name = format!(
                 "{}/replays/{}-{}.json",
-                VERIF_DIR,
+                verif_dir(),
                 self.prop,
                 h.iter().take(6).map(|b| format!("{:02x}", b)).collect::<String>()
             );
-            let _ = std::fs::create_dir_all(format!("{}/replays", VERIF_DIR));
+            let _ = std::fs::create_dir_all(format!("{}/replays", verif_dir()));
             let body = json!({
                 "property": self.prop,
                 "exploration": f.exploration,
@@ -282,7 +285,7 @@ impl Run {
                 "traces_validated_against_impl": self.transitions,
                 "evaluations": self.executions.max(self.transitions).max(1),
                 "distinct_nontrivial": nontrivial,
-                "rule": self.rule,
+                "rule": format!("{} Counting: every distinct state is expanded exactly once, so each counted case is a distinct (state, action) pair (for C19: a distinct ordered operand pair and operator).", self.rule),
                 "samples": self.samples,
                 "exhaustive": self.exhaustive,
                 "caps_hit": self.caps,
@@ -297,9 +300,9 @@ impl Run {
             "wall_s": self.t0.elapsed().as_secs_f64(),
             "violations": violations,
         });
-        let _ = std::fs::create_dir_all(format!("{}/evidence", VERIF_DIR));
+        let _ = std::fs::create_dir_all(format!("{}/evidence", verif_dir()));
         std::fs::write(
-            format!("{}/evidence/{}.json", VERIF_DIR, self.prop),
+            format!("{}/evidence/{}.json", verif_dir(), self.prop),
             serde_json::to_string_pretty(&ev).unwrap(),
         )
         .expect("write evidence");
@@ -344,7 +347,7 @@ impl Known {
 }
 
 pub fn load_known() -> Vec<Known> {
-    let p = format!("{}/known_findings.json", VERIF_DIR);
+    let p = format!("{}/known_findings.json", verif_dir());
     let s = match std::fs::read_to_string(&p) {
         Ok(s) => s,
         Err(_) => return vec![],
